@@ -56,6 +56,21 @@ CLAIMED = {
   note="Trusted: TLC; the orchestrator's search of the returned bytes in the expected content. Out-of-range arguments (API misuse) are not exercised.",
   technique="TLA+ spec (Views.tla) model-checked with TLC + TLC-simulated behaviours replayed through the real API on all source kinds + trace validation (ViewsTrace.tla)",
   design="5 C13"),
+ "C04": dict(
+  text="Integrity.tla: a container is a set of blocks (verified by CRC or not, inside a pack's hashed range or not, with or without exempt bytes); TLC enumerates every single and double damage (1 627 damage states) and every truncation point of a representative one-file container and checks PristineVerifies, CoveredDamageDetected, ExemptIsExempt from what check() verifies. For real containers (packagings x compressions) every byte position x masks {01,80,ff} and sampled multi-byte alterations are applied to a copy, the copy is opened and every check run (Container::check, each pack's own check); IntegrityTrace.tla (Prop=C04) accepts a case only if damage on bytes a checksum covers (classified by the independent decoder's block map; the location bytes 38..256 of pack infos and their CRC are the declared exemption) makes that pack's check and the container check not 'true'; the pristine file must verify.",
+  note="Trusted: TLC, tools/jbkdec.py for the block map and the coverage classification. Quick: one mask per position; thorough: all three, all packagings x compressions.",
+  technique="TLA+ spec (Integrity.tla) model-checked with TLC + exhaustive single-byte fault enumeration on real containers + trace validation (IntegrityTrace.tla)",
+  design="5 C04"),
+ "C05": dict(
+  text="Same specification and enumeration as C04 over the whole file; each damaged copy is fully dumped (pack count, indexes, counts, every property of every entry, content addresses, content sizes, content bytes, checks) and compared item by item with the pristine dump. IntegrityTrace.tla (Prop=C05) accepts a case only if no structural item differs (identical or error) and content bytes differ only when the container check is not 'true' (StructureNeverSilentlyWrong of Integrity.tla, which derives it from the blocks every operation CRC-verifies before parsing).",
+  note="Crashes are judged by C06, not here. Trusted as C04.",
+  technique="TLA+ spec (Integrity.tla) model-checked with TLC + exhaustive single-byte fault enumeration with full logical dump comparison + trace validation (IntegrityTrace.tla)",
+  design="5 C05"),
+ "C06": dict(
+  text="Integrity.tla OutcomeIsValueOrError / TruncationIsError give the guards (every cut inside its source, short reads are errors, the tail lookup needs 64 bytes, decoder errors reach the readers). Real containers of every compression and packaging are damaged at every byte position (x masks), truncated at every length, extended with garbage and replaced by non-jubako files of 0..70+ bytes; every case is opened and fully dumped by a case server in debug and release builds; a panic, abort, signal or timeout is data, re-run alone in a fresh process before it is attributed. IntegrityTrace.tla (Prop=C06) accepts only value / error outcomes.",
+  note="Storage and transfer damage only (CRC-valid forged fields are outside the claim). Hang detection: 30 s alone for a case that normally takes < 1 ms.",
+  technique="TLA+ spec (Integrity.tla) + exhaustive fault / truncation enumeration through a crash-supervised case server in both build profiles + trace validation (IntegrityTrace.tla)",
+  design="5 C06"),
 }
 
 REASON_TODO = "check not built yet (work in progress; see DESIGN.md section 9 for the order of work)"
